@@ -10,19 +10,24 @@
   facts about which value ends up where.  Combined with the chain theorems of `Props/C06.lean`
   they give the property's loop-level clauses.
 
-  `fuelOut = false` (the model's explicit loop fuel did not run out) is asserted by the replay on
-  every recorded run; `Props/C19_Panoc.lean` shows the main loop's fuel always suffices when the
-  stop flag is monotone.
+  Fuel.  The `…_of_fuel` forms hold over any carrier for any stop schedule and assume
+  `fuelOut = false` (the model's explicit loop fuel did not run out; asserted by the replay on every
+  recorded run).  The main forms (section `fuel`, ordered field) replace that assumption by the
+  explicit hypotheses of `Proofs/PanocFuel.run_fuel_suffices`: a monotone stop flag and
+  `FuelOK pr n K` (`L_max ≤ L_start·2ⁿ`, `ρᴷ < min_linesearch_coefficient`, `(n+1)(K+1) ≤ lsFuel`).
+  `iterations_le_max_iter`, `no_progress_counter_is_npRun` and `early_return` need neither.
 -/
 import Alpaqa.Proofs.PanocLoop
 import Alpaqa.Props.C06
 import Alpaqa.Proofs.PanocLoopExample
+import Alpaqa.Proofs.PanocFuel
 
 namespace Alpaqa.Props.C06Panoc
 open Alpaqa Alpaqa.Panoc Alpaqa.Gen Alpaqa.Props.C06
 set_option linter.unusedSectionVars false
 set_option linter.unusedVariables false
 
+section generic
 variable {α D : Type} [Add α] [Sub α] [Mul α] [Div α] [Neg α] [LT α] [LE α] [DecidableLT α]
   [DecidableLE α] [BEq α] [RealLike α] [NatCast α] [OfScientific α]
   [OfNat α 0] [OfNat α 1] [OfNat α 2] [OfNat α 100]
@@ -95,7 +100,7 @@ def finalHead (P : Problem α) (dir : Direction D α) (d0 : D) (pr : Params α) 
 
 /-- The result of a solve that reached the main loop is the exit block applied at the last head,
     with the status and `ε` computed there. -/
-theorem run_eq_exit (P : Problem α) (dir : Direction D α) (d0 : D) (pr : Params α)
+theorem run_eq_exit_of_fuel (P : Problem α) (dir : Direction D α) (d0 : D) (pr : Params α)
     (stop : Nat → Bool) (oot : Bool) (x0 y Sig errz0 gV : Vec α) (gS iS : α) (sh : St α D)
     (hfuel : (run P dir d0 pr stop oot x0 y Sig errz0 gV gS iS).fuelOut = false)
     (hh : finalHead P dir d0 pr stop oot x0 gV gS iS = some sh) :
@@ -118,7 +123,7 @@ theorem run_eq_exit (P : Problem α) (dir : Direction D α) (d0 : D) (pr : Param
 /-- **The returned status is the generated chain evaluated at the last loop head** on the final
     current iterate: `status = statusChain tol max_iter max_no_progress k ε no_progress oot stop`
     with `ε` the generated criterion of that iterate, `k` the returned iteration count. -/
-theorem final_status_is_chain (P : Problem α) (dir : Direction D α) (d0 : D) (pr : Params α)
+theorem final_status_is_chain_of_fuel (P : Problem α) (dir : Direction D α) (d0 : D) (pr : Params α)
     (stop : Nat → Bool) (oot : Bool) (x0 y Sig errz0 gV : Vec α) (gS iS : α) (sh : St α D)
     (hfuel : (run P dir d0 pr stop oot x0 y Sig errz0 gV gS iS).fuelOut = false)
     (hh : finalHead P dir d0 pr stop oot x0 gV gS iS = some sh) :
@@ -128,7 +133,7 @@ theorem final_status_is_chain (P : Problem α) (dir : Direction D α) (d0 : D) (
     (run P dir d0 pr stop oot x0 y Sig errz0 gV gS iS).stats.eps = epsOf P pr sh.curr ∧
     (run P dir d0 pr stop oot x0 y Sig errz0 gV gS iS).stats.iterations = sh.k ∧
     (run P dir d0 pr stop oot x0 y Sig errz0 gV gS iS).stats.status ≠ .Busy := by
-  have h := run_eq_exit P dir d0 pr stop oot x0 y Sig errz0 gV gS iS sh hfuel hh
+  have h := run_eq_exit_of_fuel P dir d0 pr stop oot x0 y Sig errz0 gV gS iS sh hfuel hh
   have hf := exitBlock_fields P pr sh (epsOf P pr sh.curr)
     (statusOf pr sh.k (epsOf P pr sh.curr) sh.noProgress oot (stop sh.tick)) x0 y Sig errz0
   rw [h.2]
@@ -136,20 +141,20 @@ theorem final_status_is_chain (P : Problem α) (dir : Direction D α) (d0 : D) (
 
 /-- **`Converged` is reported exactly when the reported `ε` is `≤` the requested tolerance**
     (`tolerance' = tolerance` if positive, else `1e-8`), for every solve that reached the main loop. -/
-theorem converged_iff_eps_le_tol (P : Problem α) (dir : Direction D α) (d0 : D) (pr : Params α)
+theorem converged_iff_eps_le_tol_of_fuel (P : Problem α) (dir : Direction D α) (d0 : D) (pr : Params α)
     (stop : Nat → Bool) (oot : Bool) (x0 y Sig errz0 gV : Vec α) (gS iS : α) (sh : St α D)
     (hfuel : (run P dir d0 pr stop oot x0 y Sig errz0 gV gS iS).fuelOut = false)
     (hh : finalHead P dir d0 pr stop oot x0 gV gS iS = some sh) :
     (run P dir d0 pr stop oot x0 y Sig errz0 gV gS iS).stats.status = .Converged ↔
       (run P dir d0 pr stop oot x0 y Sig errz0 gV gS iS).stats.eps ≤ effTol pr.tolerance := by
-  have h := final_status_is_chain P dir d0 pr stop oot x0 y Sig errz0 gV gS iS sh hfuel hh
+  have h := final_status_is_chain_of_fuel P dir d0 pr stop oot x0 y Sig errz0 gV gS iS sh hfuel hh
   rw [h.1, h.2.1]
   exact converged_iff _ _ _ _ _ _ _ _
 
 /-- The other statuses mean what the chain says, evaluated on the returned statistics:
     `MaxIter ⇒ iterations = max_iter`, `NotFinite ⇒ ε not finite`, `Interrupted ⇒ the stop flag was
     visible at the last head`, `MaxTime ⇒ out of time`; `Exception` is never returned. -/
-theorem status_meaning (P : Problem α) (dir : Direction D α) (d0 : D) (pr : Params α)
+theorem status_meaning_of_fuel (P : Problem α) (dir : Direction D α) (d0 : D) (pr : Params α)
     (stop : Nat → Bool) (oot : Bool) (x0 y Sig errz0 gV : Vec α) (gS iS : α) (sh : St α D)
     (hfuel : (run P dir d0 pr stop oot x0 y Sig errz0 gV gS iS).fuelOut = false)
     (hh : finalHead P dir d0 pr stop oot x0 gV gS iS = some sh) :
@@ -163,7 +168,7 @@ theorem status_meaning (P : Problem α) (dir : Direction D α) (d0 : D) (pr : Pa
     ((run P dir d0 pr stop oot x0 y Sig errz0 gV gS iS).stats.status = .NoProgress →
       sh.noProgress > pr.maxNoProgress) ∧
     (run P dir d0 pr stop oot x0 y Sig errz0 gV gS iS).stats.status ≠ .Exception := by
-  have h := final_status_is_chain P dir d0 pr stop oot x0 y Sig errz0 gV gS iS sh hfuel hh
+  have h := final_status_is_chain_of_fuel P dir d0 pr stop oot x0 y Sig errz0 gV gS iS sh hfuel hh
   rw [h.1, h.2.1, h.2.2.1]
   exact ⟨maxIter_only_if _ _ _ _ _ _ _ _, notFinite_only_if _ _ _ _ _ _ _ _,
     interrupted_only_if _ _ _ _ _ _ _ _, maxTime_only_if _ _ _ _ _ _ _ _,
@@ -183,7 +188,7 @@ theorem crit_yhat_irrelevant (c : PANOCStopCrit) (hc : c ≠ .Ipopt)
     unless results are written in eager mode (then `ŷ` is re-evaluated at the same `x̂` after `ε` was
     computed; only the Ipopt criterion reads `ŷ`). The last callback reports exactly the head's
     iterate, that `ε`, the exit status and the returned iteration count. -/
-theorem eps_from_final_iterate (P : Problem α) (dir : Direction D α) (d0 : D) (pr : Params α)
+theorem eps_from_final_iterate_of_fuel (P : Problem α) (dir : Direction D α) (d0 : D) (pr : Params α)
     (stop : Nat → Bool) (oot : Bool) (x0 y Sig errz0 gV : Vec α) (gS iS : α) (sh : St α D)
     (hfuel : (run P dir d0 pr stop oot x0 y Sig errz0 gV gS iS).fuelOut = false)
     (hh : finalHead P dir d0 pr stop oot x0 gV gS iS = some sh) :
@@ -203,7 +208,7 @@ theorem eps_from_final_iterate (P : Problem α) (dir : Direction D α) (d0 : D) 
       cb.it = sh.curr ∧ cb.eps = (run P dir d0 pr stop oot x0 y Sig errz0 gV gS iS).stats.eps ∧
       cb.status = (run P dir d0 pr stop oot x0 y Sig errz0 gV gS iS).stats.status ∧
       cb.k = (run P dir d0 pr stop oot x0 y Sig errz0 gV gS iS).stats.iterations := by
-  have h := run_eq_exit P dir d0 pr stop oot x0 y Sig errz0 gV gS iS sh hfuel hh
+  have h := run_eq_exit_of_fuel P dir d0 pr stop oot x0 y Sig errz0 gV gS iS sh hfuel hh
   rw [h.2]
   have hf := exitBlock_fields P pr sh (epsOf P pr sh.curr)
     (statusOf pr sh.k (epsOf P pr sh.curr) sh.noProgress oot (stop sh.tick)) x0 y Sig errz0
@@ -314,27 +319,184 @@ theorem no_progress_counter_is_npRun (P : Problem α) (dir : Direction D α) (d0
 
 /-- **`NoProgress` only after more than `max_no_progress` consecutive iterations without any change
     of the iterate.** -/
-theorem noProgress_needs_consecutive (P : Problem α) (dir : Direction D α) (d0 : D) (pr : Params α)
+theorem noProgress_needs_consecutive_of_fuel (P : Problem α) (dir : Direction D α) (d0 : D) (pr : Params α)
     (stop : Nat → Bool) (oot : Bool) (x0 y Sig errz0 gV : Vec α) (gS iS : α) (sh : St α D)
     (hfuel : (run P dir d0 pr stop oot x0 y Sig errz0 gV gS iS).fuelOut = false)
     (hh : finalHead P dir d0 pr stop oot x0 gV gS iS = some sh)
     (hs : (run P dir d0 pr stop oot x0 y Sig errz0 gV gS iS).stats.status = .NoProgress) :
     pr.maxNoProgress <
       ((runFlags P dir d0 pr stop oot x0 gV gS iS).reverse.takeWhile (· = true)).length := by
-  have h1 := (status_meaning P dir d0 pr stop oot x0 y Sig errz0 gV gS iS sh hfuel hh).2.2.2.2.1 hs
+  have h1 := (status_meaning_of_fuel P dir d0 pr stop oot x0 y Sig errz0 gV gS iS sh hfuel hh).2.2.2.2.1 hs
   have h2 := (no_progress_counter_is_npRun P dir d0 pr stop oot x0 gV gS iS sh hh).2.2
   omega
+
+/-! ### The early return -/
+
+/-- **The early `NotFinite` return** (non-finite initial Lipschitz estimate): status `NotFinite`,
+    the reported `ε` is the default `+∞` of the statistics (`infS`), no iteration, no callback,
+    nothing written. -/
+theorem early_return (P : Problem α) (dir : Direction D α) (d0 : D) (pr : Params α)
+    (stop : Nat → Bool) (oot : Bool) (x0 y Sig errz0 gV : Vec α) (gS iS : α)
+    (hh : finalHead P dir d0 pr stop oot x0 gV gS iS = none) :
+    (run P dir d0 pr stop oot x0 y Sig errz0 gV gS iS).stats.status = .NotFinite ∧
+    (run P dir d0 pr stop oot x0 y Sig errz0 gV gS iS).stats.eps = iS ∧
+    (run P dir d0 pr stop oot x0 y Sig errz0 gV gS iS).stats.iterations = 0 ∧
+    (run P dir d0 pr stop oot x0 y Sig errz0 gV gS iS).wrote = false ∧
+    (run P dir d0 pr stop oot x0 y Sig errz0 gV gS iS).callbacks = [] ∧
+    (run P dir d0 pr stop oot x0 y Sig errz0 gV gS iS).fuelOut = false := by
+  unfold finalHead at hh
+  unfold run
+  cases hi : initState P d0 pr stop x0 gV gS iS with
+  | inl t => exact ⟨rfl, rfl, rfl, rfl, rfl, rfl⟩
+  | inr s => rw [hi] at hh; exact absurd hh (by simp)
+
+/-- **`NotFinite` only with a non-finite residual — on both paths** (early return: `ε = +∞`; loop
+    head: the chain), provided the `+∞` the statistics are initialised with is not finite. -/
+theorem notFinite_residual_of_fuel (P : Problem α) (dir : Direction D α) (d0 : D) (pr : Params α)
+    (stop : Nat → Bool) (oot : Bool) (x0 y Sig errz0 gV : Vec α) (gS iS : α)
+    (hinf : RealLike.isFinite iS = false)
+    (hfuel : (run P dir d0 pr stop oot x0 y Sig errz0 gV gS iS).fuelOut = false)
+    (hs : (run P dir d0 pr stop oot x0 y Sig errz0 gV gS iS).stats.status = .NotFinite) :
+    RealLike.isFinite (run P dir d0 pr stop oot x0 y Sig errz0 gV gS iS).stats.eps = false := by
+  cases hh : finalHead P dir d0 pr stop oot x0 gV gS iS with
+  | none => rw [(early_return P dir d0 pr stop oot x0 y Sig errz0 gV gS iS hh).2.1]; exact hinf
+  | some sh =>
+    exact (status_meaning_of_fuel P dir d0 pr stop oot x0 y Sig errz0 gV gS iS sh hfuel hh).2.1 hs
+
+end generic
+
+/-! ### The same clauses with the fuel hypothesis discharged -/
+
+section fuel
+variable {α D : Type} [Field α] [LinearOrder α] [IsStrictOrderedRing α] [RealLike α]
+
+theorem final_status_is_chain (P : Problem α) (dir : Direction D α) (d0 : D) (pr : Params α)
+    (stop : Nat → Bool) (hm : StopMono stop) (n K : Nat) (hF : FuelOK pr n K) (oot : Bool)
+    (x0 y Sig errz0 gV : Vec α) (gS iS : α) (sh : St α D)
+    (hh : finalHead P dir d0 pr stop oot x0 gV gS iS = some sh) :
+    (run P dir d0 pr stop oot x0 y Sig errz0 gV gS iS).stats.status =
+      statusChain pr.tolerance pr.maxIter pr.maxNoProgress sh.k (epsOf P pr sh.curr) sh.noProgress oot
+        (stop sh.tick) ∧
+    (run P dir d0 pr stop oot x0 y Sig errz0 gV gS iS).stats.eps = epsOf P pr sh.curr ∧
+    (run P dir d0 pr stop oot x0 y Sig errz0 gV gS iS).stats.iterations = sh.k ∧
+    (run P dir d0 pr stop oot x0 y Sig errz0 gV gS iS).stats.status ≠ .Busy :=
+  final_status_is_chain_of_fuel P dir d0 pr stop oot x0 y Sig errz0 gV gS iS sh
+    (run_fuel_suffices P dir d0 pr stop hm n K hF oot x0 y Sig errz0 gV gS iS) hh
+
+/-- **`Converged` is reported exactly when the reported `ε` is `≤` the requested tolerance.** -/
+theorem converged_iff_eps_le_tol (P : Problem α) (dir : Direction D α) (d0 : D) (pr : Params α)
+    (stop : Nat → Bool) (hm : StopMono stop) (n K : Nat) (hF : FuelOK pr n K) (oot : Bool)
+    (x0 y Sig errz0 gV : Vec α) (gS iS : α) (sh : St α D)
+    (hh : finalHead P dir d0 pr stop oot x0 gV gS iS = some sh) :
+    (run P dir d0 pr stop oot x0 y Sig errz0 gV gS iS).stats.status = .Converged ↔
+      (run P dir d0 pr stop oot x0 y Sig errz0 gV gS iS).stats.eps ≤ effTol pr.tolerance :=
+  converged_iff_eps_le_tol_of_fuel P dir d0 pr stop oot x0 y Sig errz0 gV gS iS sh
+    (run_fuel_suffices P dir d0 pr stop hm n K hF oot x0 y Sig errz0 gV gS iS) hh
+
+/-- A solve never returns `Converged` from the early path, so: **`Converged ⇔ ε ≤ tolerance'`
+    whenever `+∞` is not `≤` the tolerance** — for every solve, early return included. -/
+theorem converged_iff_eps_le_tol_all (P : Problem α) (dir : Direction D α) (d0 : D) (pr : Params α)
+    (stop : Nat → Bool) (hm : StopMono stop) (n K : Nat) (hF : FuelOK pr n K) (oot : Bool)
+    (x0 y Sig errz0 gV : Vec α) (gS iS : α) (hinf : ¬ iS ≤ effTol pr.tolerance) :
+    (run P dir d0 pr stop oot x0 y Sig errz0 gV gS iS).stats.status = .Converged ↔
+      (run P dir d0 pr stop oot x0 y Sig errz0 gV gS iS).stats.eps ≤ effTol pr.tolerance := by
+  cases hh : finalHead P dir d0 pr stop oot x0 gV gS iS with
+  | none =>
+    have h := early_return P dir d0 pr stop oot x0 y Sig errz0 gV gS iS hh
+    rw [h.1, h.2.1]
+    exact ⟨fun hc => (by cases hc), fun hc => absurd hc hinf⟩
+  | some sh => exact converged_iff_eps_le_tol P dir d0 pr stop hm n K hF oot x0 y Sig errz0 gV gS iS sh hh
+
+theorem status_meaning (P : Problem α) (dir : Direction D α) (d0 : D) (pr : Params α)
+    (stop : Nat → Bool) (hm : StopMono stop) (n K : Nat) (hF : FuelOK pr n K) (oot : Bool)
+    (x0 y Sig errz0 gV : Vec α) (gS iS : α) (sh : St α D)
+    (hh : finalHead P dir d0 pr stop oot x0 gV gS iS = some sh) :
+    ((run P dir d0 pr stop oot x0 y Sig errz0 gV gS iS).stats.status = .MaxIter →
+      (run P dir d0 pr stop oot x0 y Sig errz0 gV gS iS).stats.iterations = pr.maxIter) ∧
+    ((run P dir d0 pr stop oot x0 y Sig errz0 gV gS iS).stats.status = .NotFinite →
+      RealLike.isFinite (run P dir d0 pr stop oot x0 y Sig errz0 gV gS iS).stats.eps = false) ∧
+    ((run P dir d0 pr stop oot x0 y Sig errz0 gV gS iS).stats.status = .Interrupted →
+      stop sh.tick = true) ∧
+    ((run P dir d0 pr stop oot x0 y Sig errz0 gV gS iS).stats.status = .MaxTime → oot = true) ∧
+    ((run P dir d0 pr stop oot x0 y Sig errz0 gV gS iS).stats.status = .NoProgress →
+      sh.noProgress > pr.maxNoProgress) ∧
+    (run P dir d0 pr stop oot x0 y Sig errz0 gV gS iS).stats.status ≠ .Exception :=
+  status_meaning_of_fuel P dir d0 pr stop oot x0 y Sig errz0 gV gS iS sh
+    (run_fuel_suffices P dir d0 pr stop hm n K hF oot x0 y Sig errz0 gV gS iS) hh
+
+/-- **`NotFinite` only with a non-finite residual**, every solve (early return included). -/
+theorem notFinite_residual (P : Problem α) (dir : Direction D α) (d0 : D) (pr : Params α)
+    (stop : Nat → Bool) (hm : StopMono stop) (n K : Nat) (hF : FuelOK pr n K) (oot : Bool)
+    (x0 y Sig errz0 gV : Vec α) (gS iS : α) (hinf : RealLike.isFinite iS = false)
+    (hs : (run P dir d0 pr stop oot x0 y Sig errz0 gV gS iS).stats.status = .NotFinite) :
+    RealLike.isFinite (run P dir d0 pr stop oot x0 y Sig errz0 gV gS iS).stats.eps = false :=
+  notFinite_residual_of_fuel P dir d0 pr stop oot x0 y Sig errz0 gV gS iS hinf
+    (run_fuel_suffices P dir d0 pr stop hm n K hF oot x0 y Sig errz0 gV gS iS) hs
+
+theorem eps_from_final_iterate (P : Problem α) (dir : Direction D α) (d0 : D) (pr : Params α)
+    (stop : Nat → Bool) (hm : StopMono stop) (n K : Nat) (hF : FuelOK pr n K) (oot : Bool)
+    (x0 y Sig errz0 gV : Vec α) (gS iS : α) (sh : St α D)
+    (hh : finalHead P dir d0 pr stop oot x0 gV gS iS = some sh) :
+    ∃ c cb, (run P dir d0 pr stop oot x0 y Sig errz0 gV gS iS).final = some c ∧
+      (run P dir d0 pr stop oot x0 y Sig errz0 gV gS iS).stats.eps =
+        calcErrorStopCrit pr.stopCrit (fun g x gr => ((P.prox g x gr).2.1, (P.prox g x gr).2.2))
+          c.p c.gamma c.x c.xhat sh.curr.yhat c.gradPsi c.gradPsiHat ∧
+      ((pr.stopCrit ≠ .Ipopt ∨
+          ((run P dir d0 pr stop oot x0 y Sig errz0 gV gS iS).wrote && pr.eagerGradientEval) = false) →
+        (run P dir d0 pr stop oot x0 y Sig errz0 gV gS iS).stats.eps =
+          calcErrorStopCrit pr.stopCrit (fun g x gr => ((P.prox g x gr).2.1, (P.prox g x gr).2.2))
+            c.p c.gamma c.x c.xhat c.yhat c.gradPsi c.gradPsiHat) ∧
+      ((run P dir d0 pr stop oot x0 y Sig errz0 gV gS iS).wrote = true →
+        (run P dir d0 pr stop oot x0 y Sig errz0 gV gS iS).x = c.xhat ∧
+        (run P dir d0 pr stop oot x0 y Sig errz0 gV gS iS).y = c.yhat) ∧
+      (run P dir d0 pr stop oot x0 y Sig errz0 gV gS iS).callbacks.getLast? = some cb ∧
+      cb.it = sh.curr ∧ cb.eps = (run P dir d0 pr stop oot x0 y Sig errz0 gV gS iS).stats.eps ∧
+      cb.status = (run P dir d0 pr stop oot x0 y Sig errz0 gV gS iS).stats.status ∧
+      cb.k = (run P dir d0 pr stop oot x0 y Sig errz0 gV gS iS).stats.iterations :=
+  eps_from_final_iterate_of_fuel P dir d0 pr stop oot x0 y Sig errz0 gV gS iS sh
+    (run_fuel_suffices P dir d0 pr stop hm n K hF oot x0 y Sig errz0 gV gS iS) hh
+
+/-- **`NoProgress` only after more than `max_no_progress` consecutive iterations without any change
+    of the iterate.** -/
+theorem noProgress_needs_consecutive (P : Problem α) (dir : Direction D α) (d0 : D) (pr : Params α)
+    (stop : Nat → Bool) (hm : StopMono stop) (n K : Nat) (hF : FuelOK pr n K) (oot : Bool)
+    (x0 y Sig errz0 gV : Vec α) (gS iS : α) (sh : St α D)
+    (hh : finalHead P dir d0 pr stop oot x0 gV gS iS = some sh)
+    (hs : (run P dir d0 pr stop oot x0 y Sig errz0 gV gS iS).stats.status = .NoProgress) :
+    pr.maxNoProgress <
+      ((runFlags P dir d0 pr stop oot x0 gV gS iS).reverse.takeWhile (· = true)).length :=
+  noProgress_needs_consecutive_of_fuel P dir d0 pr stop oot x0 y Sig errz0 gV gS iS sh
+    (run_fuel_suffices P dir d0 pr stop hm n K hF oot x0 y Sig errz0 gV gS iS) hh hs
+
+end fuel
 
 /-! ### Non-vacuity: a concrete run over ℚ (`Proofs/PanocLoopExample.lean`) meets the hypotheses -/
 
 section examples
 open Alpaqa.Panoc.Example
 
+theorem stopAt_mono (t0 : Option Nat) : StopMono (stopAt t0) := by
+  intro s t h hs
+  cases t0 with
+  | none => simp [stopAt] at hs
+  | some t0 => simp only [stopAt, decide_eq_true_eq] at *; omega
+
+/-- `FuelOK` for the example parameters and their variants below (only `L₀`, `L_max`, the line-search
+    coefficients and `lsFuel` matter) -/
+theorem fuelOK_prq : FuelOK prq 1 9 := by
+  refine ⟨?_, ?_, ?_, ?_, ?_, by norm_num, ?_, ?_⟩ <;> norm_num [prq, Lstart]
+
 /-- the run reaches the main loop, does not run out of fuel, converges after two iterations -/
 example : (finalHead Pq dirNoop () prq (stopAt none) false [1] [] 0 0).isSome = true ∧
     (rq none).fuelOut = false ∧ (rq none).stats.status = .Converged ∧
     (rq none).stats.iterations = 2 ∧ (rq none).stats.iterations ≤ prq.maxIter ∧
     (rq none).stats.eps ≤ effTol prq.tolerance := by decide +kernel
+
+/-- `converged_iff_eps_le_tol` with every hypothesis discharged -/
+example (sh : St ℚ Unit) (hh : finalHead Pq dirNoop () prq (stopAt none) false [1] [] 0 0 = some sh) :
+    (rq none).stats.status = .Converged ↔ (rq none).stats.eps ≤ effTol prq.tolerance :=
+  converged_iff_eps_le_tol Pq dirNoop () prq (stopAt none) (stopAt_mono none) 1 9 fuelOK_prq false
+    [1] [] [] [] [] 0 0 sh hh
 
 /-- its "iterate unchanged" flags: both iterations moved -/
 example : runFlags Pq dirNoop () prq (stopAt none) false [1] [] 0 0 = [false, false] := by
@@ -343,6 +505,84 @@ example : runFlags Pq dirNoop () prq (stopAt none) false [1] [] 0 0 = [false, fa
 /-- an interrupted run (flag visible from tick 7) also meets them -/
 example : (finalHead Pq dirNoop () prq (stopAt (some 7)) false [1] [] 0 0).isSome = true ∧
     (rq (some 7)).fuelOut = false ∧ (rq (some 7)).stats.status = .Interrupted := by decide +kernel
+
+/-- `n = 1`, `m = 1` (`Pm`): `Converged` after one iteration; with `max_iter = 1` and a tolerance of
+    `1/1000` the same run ends **`MaxIter`** with `iterations = max_iter = 1` and `ε = 1/20 > tol` -/
+example : (rm prq none).stats.status = .Converged ∧ (rm prq none).stats.iterations = 1 ∧
+    (rm { prq with maxIter := 1, tolerance := 1/1000 } none).stats.status = .MaxIter ∧
+    (rm { prq with maxIter := 1, tolerance := 1/1000 } none).stats.iterations = 1 ∧
+    (rm { prq with maxIter := 1, tolerance := 1/1000 } none).stats.eps = 1/20 ∧
+    (rm { prq with maxIter := 1, tolerance := 1/1000 } none).fuelOut = false ∧
+    (finalHead Pm dirNoop () { prq with maxIter := 1, tolerance := 1/1000 } (stopAt none) false [1] [] 0 0).isSome
+      = true := by decide +kernel
+
+/-- `status_meaning` on the `MaxIter` run, every hypothesis discharged:
+    `MaxIter ⇒ iterations = max_iter` -/
+example : (rm { prq with maxIter := 1, tolerance := 1/1000 } none).stats.iterations = 1 := by
+  have hF : FuelOK { prq with maxIter := 1, tolerance := 1/1000 } 1 9 := by
+    refine ⟨?_, ?_, ?_, ?_, ?_, by norm_num, ?_, ?_⟩ <;> norm_num [prq, Lstart]
+  cases hh : finalHead Pm dirNoop () { prq with maxIter := 1, tolerance := 1/1000 } (stopAt none) false
+      [1] [] 0 0 with
+  | none => exact absurd hh (by decide +kernel)
+  | some sh =>
+    exact (status_meaning Pm dirNoop () _ (stopAt none) (stopAt_mono none) 1 9 hF false [1] [0] [1] [7] [] 0 0
+      sh hh).1 (by decide +kernel)
+
+/-- the run that ends **`NoProgress`** (`Pstuck`: the iterate never moves; `max_no_progress = 1`):
+    two iterations, both flagged "unchanged", counter `2 > 1` -/
+def prStuck : Params ℚ := { prq with maxNoProgress := 1, maxIter := 10 }
+
+example : (run Pstuck dirNoop () prStuck (stopAt none) false [1] [] [] [] [] 0 0).stats.status = .NoProgress ∧
+    (run Pstuck dirNoop () prStuck (stopAt none) false [1] [] [] [] [] 0 0).stats.iterations = 2 ∧
+    (run Pstuck dirNoop () prStuck (stopAt none) false [1] [] [] [] [] 0 0).fuelOut = false ∧
+    runFlags Pstuck dirNoop () prStuck (stopAt none) false [1] [] 0 0 = [true, true] := by
+  decide +kernel
+
+/-- `noProgress_needs_consecutive` on it, every hypothesis discharged -/
+example : prStuck.maxNoProgress <
+    ((runFlags Pstuck dirNoop () prStuck (stopAt none) false [1] [] 0 0).reverse.takeWhile (· = true)).length := by
+  have hF : FuelOK prStuck 1 9 := by
+    refine ⟨?_, ?_, ?_, ?_, ?_, by norm_num, ?_, ?_⟩ <;> norm_num [prStuck, prq, Lstart]
+  cases hh : finalHead Pstuck dirNoop () prStuck (stopAt none) false [1] [] 0 0 with
+  | none => exact absurd hh (by decide +kernel)
+  | some sh =>
+    exact noProgress_needs_consecutive Pstuck dirNoop () prStuck (stopAt none) (stopAt_mono none) 1 9 hF
+      false [1] [] [] [] [] 0 0 sh hh (by decide +kernel)
+
+/-! `NotFinite`: a carrier whose `isFinite` is `|q| < 1000` (`rlBounded`; the theorems hold for any
+    `RealLike`), `+∞ := 10⁶`. -/
+section notFinite
+local instance (priority := high) instRlBounded : RealLike ℚ := rlBounded
+
+/-- early return: `L₀ = 5000` is "not finite": status **`NotFinite`**, `ε = +∞`, one oracle call,
+    nothing written -/
+def rEarly : Result ℚ Unit :=
+  run Pq dirNoop () { prq with L0 := 5000 } (stopAt none) false [1] [] [] [] [] 0 1000000
+
+example : rEarly.stats.status = .NotFinite ∧ rEarly.stats.eps = 1000000 ∧ rEarly.stats.iterations = 0 ∧
+    rEarly.wrote = false ∧ rEarly.ticks = 1 ∧ RealLike.isFinite rEarly.stats.eps = false ∧
+    (finalHead Pq dirNoop () { prq with L0 := 5000 } (stopAt none) false [1] [] 0 1000000).isNone = true := by
+  decide +kernel
+
+/-- at a loop head: from `x₀ = 2000` the residual `‖p‖∞/γ = 2000` is "not finite": status
+    **`NotFinite`** at iteration 0 through the chain -/
+def rHead : Result ℚ Unit := run Pq dirNoop () prq (stopAt none) false [2000] [] [] [] [] 0 1000000
+
+example : rHead.stats.status = .NotFinite ∧ rHead.stats.eps = 2000 ∧ rHead.stats.iterations = 0 ∧
+    rHead.fuelOut = false ∧ RealLike.isFinite rHead.stats.eps = false ∧
+    (finalHead Pq dirNoop () prq (stopAt none) false [2000] [] 0 1000000).isSome = true := by
+  decide +kernel
+
+/-- `notFinite_residual` on both, every hypothesis discharged -/
+example : RealLike.isFinite rHead.stats.eps = false ∧ RealLike.isFinite rEarly.stats.eps = false := by
+  have hF2 : FuelOK { prq with L0 := 5000 } 0 9 := by
+    refine ⟨?_, ?_, ?_, ?_, ?_, by norm_num, ?_, ?_⟩ <;> norm_num [prq, Lstart]
+  exact ⟨notFinite_residual Pq dirNoop () prq (stopAt none) (stopAt_mono none) 1 9 fuelOK_prq false
+      [2000] [] [] [] [] 0 1000000 (by decide +kernel) (by decide +kernel),
+    notFinite_residual Pq dirNoop () { prq with L0 := 5000 } (stopAt none) (stopAt_mono none) 0 9 hF2 false
+      [1] [] [] [] [] 0 1000000 (by decide +kernel) (by decide +kernel)⟩
+
+end notFinite
 
 end examples
 
